@@ -70,6 +70,12 @@ def gen_cross_case(rnd, spec):
         gen["payloads"].append({"id": "cross%d" % i, "flavour": "trio", "cleanup": {"kind": "none"},
                                 "program": [["sleep", 0.02], ["exec_loop", "xs%d" % i, 400, rnd.choice([0.0, 0.005])]]})
         script.append(["adopt", "cross%d" % i])
+    if trigger not in ("sigint", "kbint_asyncio", "kbint_thread") and rnd.random() < 0.6:
+        # a trio payload whose shielded cleanup calls into the asyncio runner half way through (with a coroutine of several steps)
+        gen["payloads"].append({"id": "xclean", "flavour": "asyncio", "executed": True, "cleanup": {"kind": "none"},
+                                "program": [["sleep", 0.05], ["sleep", 0.1], ["sleep", 0.05], ["return", "none"]]})
+        gen["payloads"].append({"id": "cleaner", "flavour": "trio", "when": "queued", "program": [["block"]],
+                                "cleanup": {"kind": "shielded", "dur": rnd.choice([0.1, 0.2]), "execute_mid": "xclean"}})
     script.append(["sleep", rnd.choice([0.1, 0.2, 0.3])])
     fl = {"asyncio": "asyncio", "trio": "trio", "thread": "threading"}
     if trigger.startswith(("fail_", "return_", "kbint_")):
@@ -325,8 +331,21 @@ def judge(case, run, result, suspects_out=None):
     if workers:
         result.count("dispatcher_workers_judged", len(workers))
     result.count("running_coroutine_payloads_judged", checked)
+    for e in run.of("raised", gen=0, op="adopt"):
+        if e.get("by") in specs and specs[e["by"]].get("flavour") in common.COROUTINE:
+            # a cleanup that hands work over does not expect adopt to fail: the error ends the cleanup where it stands
+            mech = "C02/systemexit-orphans-trio" if trigger.startswith("systemexit_") else None
+            problems.append(("trigger %s: adopt(%s) inside the cleanup of %s payload %s raised %s(%s): the rest of that cleanup is lost"
+                             % (trigger, e["pid"], specs[e["by"]]["flavour"], e["by"], e["exc"], e["msg"]), mech))
+            break
     if case["meta"].get("cross") and run.of("call", gen=0, op="execute"):
         result.count("terminations_beside_trio_payloads_calling_into_asyncio")
+    for call in [e for e in run.of("call", gen=0, op="execute") if e.get("pid") == "xclean"]:
+        out = [e for e in run.events if e.get("op") == "execute" and e.get("pid") == "xclean" and e["kind"] in ("return", "raised")]
+        result.count("cleanups_that_call_into_the_asyncio_runner")
+        if out and out[0]["kind"] == "raised":
+            problems.append(("trigger %s: the shielded cleanup of trio payload cleaner called execute(flavour=asyncio) with a coroutine of several steps, "
+                             "and the call raised %s(%s) instead of returning the coroutine's result" % (trigger, out[0]["exc"], out[0]["msg"]), None))
     if run.of("block-start") and not run.of("accept-still-running"):
         result.count("terminations_with_blocked_threads")
     if suspects_out is not None:
@@ -421,7 +440,7 @@ def run_shard(spec):
 def finish(total, tier):
     need = ["running_coroutine_payloads_judged", "payloads_cancelled_and_cleaned_asyncio", "payloads_cancelled_and_cleaned_trio",
             "shielded_cleanups_finished_first", "terminations_with_blocked_threads", "payloads_adopted_during_termination_started", "scenarios_driving_metarunner_directly", "dispatcher_workers_judged", "private_waiters_cancelled_properly",
-            "async_cleanups_finished_first", "shielded_cleanups_that_adopt_half_way_finished_first", "stubborn_payloads_cancelled_until_done_asyncio", "stubborn_payloads_cancelled_until_done_trio", "process_exits_with_blocked_thread_payloads_checked", "terminations_beside_trio_payloads_calling_into_asyncio"]
+            "async_cleanups_finished_first", "shielded_cleanups_that_adopt_half_way_finished_first", "stubborn_payloads_cancelled_until_done_asyncio", "stubborn_payloads_cancelled_until_done_trio", "process_exits_with_blocked_thread_payloads_checked", "terminations_beside_trio_payloads_calling_into_asyncio", "cleanups_that_call_into_the_asyncio_runner"]
     need += ["trigger_" + t for t in TRIGGERS if not t.startswith("systemexit")]
     for name in need:
         if not total.counters.get(name) and not total.violations:
